@@ -10,6 +10,17 @@ func init() {
 }
 
 func (i *IRCServer) cmdUser(s *Session, reply *Replyctx, msg *irc.Message) {
+	if msg.Params[0] == "" {
+		// “USER  0 * :x” parses into an empty first parameter. Without a
+		// username, the prefix is rendered as nick@host, which no
+		// nick!user@host ban mask (e.g. *!*@robust/0x1) matches.
+		i.sendUser(s, reply, &irc.Message{
+			Prefix:  i.ServerPrefix,
+			Command: irc.ERR_NEEDMOREPARAMS,
+			Params:  []string{s.Nick, msg.Command, "Not enough parameters"},
+		})
+		return
+	}
 	// We keep the username (so that bans are more effective) and realname
 	// (some people actually set it and look at it).
 	s.Username = msg.Params[0]
